@@ -31,7 +31,12 @@ type c20client struct {
 
 func genC20Op(tp *simkit.Tape, client, idx int) Op {
 	m := markerOf(client, idx)
-	switch c := tp.Choose(17); {
+	switch c := tp.Choose(18); {
+	case c == 17:
+		// a SET with two assignments of which the second is refused by the proxy itself: MySQL applies nothing
+		// of a SET statement that fails, so the client's settings are what they were
+		v := []string{"+08:00", "-05:00"}[tp.Choose(2)]
+		return Op{Kind: "query", SQL: "set time_zone = '" + v + "', global max_connections = 5", Class: "set-refused", Arg: "time_zone=" + v}
 	case c == 16:
 		// the client idles past the pool's ping period; sometimes the backend drops its idle connections meanwhile
 		return Op{Kind: "nap", Class: "nap", Arg: []string{"", "kill"}[tp.Choose(2)]}
